@@ -17,6 +17,14 @@ CHECKS = {
          "Exploration: every ASCII byte alone and in context, every length 0..9 (all padding cases), 150k random Unicode strings up to 4096 bytes, 150k decoder inputs, 150k JSON values (quick; x30 thorough) through the real filters registered on an engine and invoked from templates.",
          "Trusted base: own base64/percent/JSON reference readers; serde_json as a second JSON acceptor. Values with non-finite floats or keys colliding after stringification are outside the statement and discarded (counted).",
          "DESIGN.md section 4 C20"),
+ "C15": ("differential against a reference equality/ordering (exact number comparison, structural containers) plus algebraic laws (reflexive, symmetric, transitive, trichotomy, congruence) stated on the engine's own answers, over proptest-generated near-equal value families; model-based map lookup (reference map keyed by mathematical value) for every lookup form",
+         "Exploration: 480k generated pairs/triples (quick) of values of every kind in random integer encodings, safe marks, key spellings and map insertion orders, each compared under the six operators in both directions; 80k arrays through unique/sort; 200k (map, key) lookups through m[k], m.k (fused and unfused), k in m, get, is containing, with maps on both sides of the attribute-scan cutoff.",
+         "Trusted base: the reference order in harness/src/mval.rs. Explicit undefined values are not generated (the statement does not define their comparison); sort inputs containing top-level none are left to C16.",
+         "DESIGN.md section 4 C15"),
+ "C16": ("validity predicates and reference implementations over proptest-generated arrays: sort checked in both directions (a refusal must be justified by a missing attribute or an incomparable non-none pair; a result must be the exact stable permutation), unique/group_by against reference partitions, metamorphic agreement laws (reverse twice, split then join, first/last/nth vs indexing, length vs iteration, keys/values/pairs position-wise)",
+         "Exploration: 120k generated inputs per family (quick; x30 thorough), arrays up to 60 elements (past the 21-element threshold of std's sort checks) with kind classes, inserted none/foreign elements, ties between differently printed equal keys, attribute paths k / k.j / k.0 on tagged elements so the permutation is fully observable.",
+         "Trusted base: reference order of mval.rs. group_by with a missing attribute: error and discard both accepted (docs and MIGRATION.md disagree); keys colliding after stringification and explicit undefined elements are not generated.",
+         "DESIGN.md section 4 C16"),
 }
 NOT_BUILT_REASON = "check not built yet (work in progress in this session); see DESIGN.md section 4 for the planned generated-input check"
 ALL = ["C%02d" % i for i in range(1, 21)]
